@@ -104,6 +104,9 @@ def run_check(prop, tier, seed):
         try:
             corr = spec['corr'](ctx) if 'corr' in spec else corr
         except Exception as ex:
+            if type(ex).__name__ == 'ToolFailure':
+                print('TOOL FAILURE (not a verdict): %s' % ex)
+                sys.exit(2)
             broken.append(dict(kind='correspondence-crash', what=type(ex).__name__, detail=traceback.format_exc()[-1500:]))
     for d in corr['disagreements'][:20]:
         broken.append(dict(kind='correspondence', what=str(d.get('module', d.get('kernel', '?'))) + '.' + str(d.get('name', '')), detail=json.dumps(d, default=str)[:600]))
